@@ -78,6 +78,7 @@ def _run(seeded, ids, REPO, env, rows):
                 r = sh([str(VERIF_RUN[0] / 'check'), p, 'quick'], cwd=str(VERIF_RUN[0]), env=env)
                 vio = [l for l in r.stdout.splitlines() if l.startswith('VIOLATION')]
                 rows.append((d.name, p, f'exit={r.returncode} ' + (vio[0] if vio else r.stdout.strip().splitlines()[-1][:120] if r.stdout.strip() else r.stderr.strip()[-120:])))
+                print('..', *rows[-1], flush=True)
                 if vio:
                     rp = vio[0].split('replay=')[1].split()[0]
                     src = Path(rp) if os.path.isabs(rp) else VERIF_RUN[0] / rp
